@@ -2,15 +2,6 @@
 verus! {
 
 #[verifier::external_body]
-pub struct Transaction { _p: u8 }
-impl Clone for Transaction { #[verifier::external_body] fn clone(&self) -> (r: Self) ensures r == *self { unimplemented!() } }
-impl PartialEq for Transaction { #[verifier::external_body] fn eq(&self, other: &Self) -> (r: bool) { unimplemented!() } }
-impl vstd::std_specs::cmp::PartialEqSpecImpl for Transaction {
-    open spec fn obeys_eq_spec() -> bool { true }
-    open spec fn eq_spec(&self, other: &Self) -> bool { *self == *other }
-}
-
-#[verifier::external_body]
 pub struct ScriptBuf { _p: u8 }
 impl Clone for ScriptBuf { #[verifier::external_body] fn clone(&self) -> (r: Self) ensures r == *self { unimplemented!() } }
 impl PartialEq for ScriptBuf { #[verifier::external_body] fn eq(&self, other: &Self) -> (r: bool) { unimplemented!() } }
@@ -154,6 +145,54 @@ impl PartialEq for ChannelId { #[verifier::external_body] fn eq(&self, other: &S
 impl vstd::std_specs::cmp::PartialEqSpecImpl for ChannelId {
     open spec fn obeys_eq_spec() -> bool { true }
     open spec fn eq_spec(&self, other: &Self) -> bool { *self == *other }
+}
+
+// bitcoin::Amount
+#[verifier::external_body]
+pub struct Amount { _p: u8 }
+impl Clone for Amount { #[verifier::external_body] fn clone(&self) -> (r: Self) ensures r == *self { unimplemented!() } }
+impl Copy for Amount {}
+pub uninterp spec fn amount_sat(a: Amount) -> u64;
+impl Amount {
+    #[verifier::external_body]
+    pub fn from_sat(v: u64) -> (r: Amount) ensures amount_sat(r) == v { unimplemented!() }
+    #[verifier::external_body]
+    pub fn to_sat(self) -> (r: u64) ensures r == amount_sat(self) { unimplemented!() }
+}
+// bitcoin::transaction::Version(pub i32), bitcoin::Sequence(pub u32)
+pub struct Version(pub i32);
+impl Clone for Version { #[verifier::external_body] fn clone(&self) -> (r: Self) ensures r == *self { unimplemented!() } }
+impl Copy for Version {}
+impl PartialEq for Version { #[verifier::external_body] fn eq(&self, other: &Self) -> (r: bool) { unimplemented!() } }
+impl vstd::std_specs::cmp::PartialEqSpecImpl for Version {
+    open spec fn obeys_eq_spec() -> bool { true }
+    open spec fn eq_spec(&self, other: &Self) -> bool { *self == *other }
+}
+impl Version { pub const TWO: Version = Version(2); }
+pub struct Sequence(pub u32);
+impl Clone for Sequence { #[verifier::external_body] fn clone(&self) -> (r: Self) ensures r == *self { unimplemented!() } }
+impl Copy for Sequence {}
+#[verifier::external_body]
+pub struct LockTime { _p: u8 }
+impl Clone for LockTime { #[verifier::external_body] fn clone(&self) -> (r: Self) ensures r == *self { unimplemented!() } }
+impl Copy for LockTime {}
+#[verifier::external_body]
+pub struct Witness { _p: u8 }
+impl Clone for Witness { #[verifier::external_body] fn clone(&self) -> (r: Self) ensures r == *self { unimplemented!() } }
+// bitcoin::{TxIn, TxOut, Transaction}: all fields pub
+pub struct TxIn { pub previous_output: OutPoint, pub script_sig: ScriptBuf, pub sequence: Sequence, pub witness: Witness }
+pub struct TxOut { pub value: Amount, pub script_pubkey: ScriptBuf }
+pub struct Transaction { pub version: Version, pub lock_time: LockTime, pub input: Vec<TxIn>, pub output: Vec<TxOut> }
+impl Clone for Transaction { #[verifier::external_body] fn clone(&self) -> (r: Self) ensures r == *self { unimplemented!() } }
+impl PartialEq for Transaction { #[verifier::external_body] fn eq(&self, other: &Self) -> (r: bool) { unimplemented!() } }
+impl vstd::std_specs::cmp::PartialEqSpecImpl for Transaction {
+    open spec fn obeys_eq_spec() -> bool { true }
+    open spec fn eq_spec(&self, other: &Self) -> bool { *self == *other }
+}
+pub uninterp spec fn tx_base_size(tx: Transaction) -> usize;
+impl Transaction {
+    #[verifier::external_body]
+    pub fn base_size(&self) -> (r: usize) ensures r == tx_base_size(*self) { unimplemented!() }
 }
 
 // bitcoin::OutPoint { pub txid, pub vout }
